@@ -67,9 +67,17 @@ def run(eng, rep, tier):
     resets = [s for s in ast.walk(fi.node) if isinstance(s, ast.Assign) and any(isinstance(tg, ast.Name) and tg.id in ctr_names
                                                                                 for tg in s.targets)]
     if not ctr_names:
-        rep.error("R5", "C10.1", fi.qname, "counter-shared-across-operands",
-                  "the renamed variable names are not built inside substitute any more (moved to a helper): the rule cannot "
-                  "follow the renaming counter", site=site_of(prog, fi, fi.node))
+        verdict = _counter_through_helper(prog, fi)
+        if verdict is None:
+            rep.error("R5", "C10.1", fi.qname, "counter-shared-across-operands",
+                      "the renamed variable names are not built inside substitute any more and no helper threading the "
+                      "counter was recognised: the rule cannot follow the renaming counter", site=site_of(prog, fi, fi.node))
+        else:
+            ob.decide("R5", "C10.1", fi, "counter-shared-across-operands", verdict[0],
+                      "one renaming counter is threaded through the naming helper for self and every substituted grammar "
+                      "(started once, never reset)",
+                      "the renaming counter is reset between operands: the same object used twice gets the same names (%s)"
+                      % verdict[1], None, site=site_of(prog, fi, fi.node))
     else:
       ob.decide("R5", "C10.1", fi, "counter-shared-across-operands", len(ctr_names) == 1 and len(resets) == 1,
                 "one renaming counter runs through self and every substituted grammar (never reset)",
@@ -178,3 +186,56 @@ def _concat_order(summ):
         return True, ""
     from ..av import loc_str
     return False, "first body symbol -> %s, second -> %s" % (sorted(loc_str(l) for l in b0), sorted(loc_str(l) for l in b1))
+
+
+def _counter_through_helper(prog, fi):
+    """The naming loop was extracted: a private helper H builds Variable(.. str(c) ..) with c one of its parameters and
+    returns the advanced counter; substitute starts it with a constant exactly once and otherwise passes on the value
+    returned by the previous call.  Returns None when no such helper is recognised, else (ok, why)."""
+    from .flow import helpers_of
+    hs = helpers_of(prog, fi)
+    for c in ast.walk(fi.node):
+        if not isinstance(c, ast.Call):
+            continue
+        nm = c.func.attr if isinstance(c.func, ast.Attribute) else getattr(c.func, "id", None)
+        h = hs.get(nm) if nm and nm.startswith("_") else None
+        if h is None:
+            continue
+        params = [a.arg for a in h.args.posonlyargs + h.args.args]
+        static = any(isinstance(d, ast.Name) and d.id == "staticmethod" for d in h.decorator_list)
+        if isinstance(c.func, ast.Attribute) and not static and params:
+            params = params[1:]
+        spliced = set()
+        for v in ast.walk(h):
+            if isinstance(v, ast.Call) and getattr(v.func, "id", "") == "Variable" and v.args:
+                for sub in ast.walk(v.args[0]):
+                    if isinstance(sub, ast.Call) and getattr(sub.func, "id", "") == "str" and sub.args and \
+                            isinstance(sub.args[0], ast.Name) and sub.args[0].id in params:
+                        spliced.add(sub.args[0].id)
+        if len(spliced) != 1:
+            continue
+        cparam = next(iter(spliced))
+        k = params.index(cparam)
+        returned = any(isinstance(r, ast.Return) and r.value is not None and
+                       any(isinstance(x, ast.Name) and x.id == cparam for x in ast.walk(r.value)) for r in ast.walk(h))
+        advanced = any(isinstance(a, ast.AugAssign) and isinstance(a.target, ast.Name) and a.target.id == cparam
+                       and isinstance(a.op, ast.Add) for a in ast.walk(h))
+        if not (returned and advanced):
+            return False, "%s does not advance and return its counter" % nm
+        calls_h = [x for x in ast.walk(fi.node) if isinstance(x, ast.Call) and (
+            (isinstance(x.func, ast.Attribute) and x.func.attr == nm) or (isinstance(x.func, ast.Name) and x.func.id == nm))]
+        consts = [x for x in calls_h if len(x.args) > k and isinstance(x.args[k], ast.Constant)]
+        names = {x.args[k].id for x in calls_h if len(x.args) > k and isinstance(x.args[k], ast.Name)}
+        # the names passed on must be (re)bound from the helper's result
+        bound = set()
+        for st in ast.walk(fi.node):
+            if isinstance(st, ast.Assign) and isinstance(st.value, ast.Call) and st.value in calls_h:
+                for tg in st.targets:
+                    bound |= {x.id for x in ast.walk(tg) if isinstance(x, ast.Name)}
+        resets = [st for st in ast.walk(fi.node) if isinstance(st, ast.Assign) and isinstance(st.value, ast.Constant)
+                  and any(isinstance(tg, ast.Name) and tg.id in names for tg in st.targets)]
+        loops = [l for l in ast.walk(fi.node) if isinstance(l, (ast.For, ast.While))]
+        const_in_loop = [x for x in consts if any(any(y is x for y in ast.walk(l)) for l in loops)]
+        ok = len(consts) + len(resets) == 1 and not const_in_loop and names <= bound and len(calls_h) >= 2
+        return ok, "%d constant starts, %d in a loop, %d resets" % (len(consts), len(const_in_loop), len(resets))
+    return None
